@@ -20,6 +20,7 @@ META = {
         "composition (induction over per-step rows, argued)."),
     "rules": {
         "R01.8": "construction wiring: every From<T> into an instruction enum wraps T in the variant whose payload type is T; the const constructors build the variant they are named after",
+        "R01.9": "operand order of the stack reads/removals the instructions are built on (top = last element, top2/top3/pop2/pop3 top first, push_many first supplied on top): C04's R04.4 re-evaluated",
         "R01.1": "dispatcher arms forward to their own payload (53 arms)",
         "R01.2": "per-leaf effect rows / conditional action tables equal the oracle on the boundary grid",
         "R01.3": "value closures: primitive and operand order",
@@ -379,6 +380,10 @@ def check(ctx):
         for k, msg in bad.items():
             ctx.bad("R01.2", "%s/%s" % (l.name, k), msg, l.at)
     ctx.extra["grid_points_compared"] = pts
+    # ---- R01.9: "first operand = top" rests on the order in which the stack hands out elements -------------
+    from . import rules_c04
+    from .rules_c03 import _Refile
+    rules_c04.check(_Refile(ctx, {"R04.4": "R01.9"}))
     for fid, c in fx.unclassified:
         ctx.bad("R01.2", "unclassified-call/%s" % short(c, 1).split("(")[0], "call on the machine state without a primitive summary: %s in %s" % (short(c, 3), fid))
     # ---- R01.3 / R01.4 ---------------------------------------------------------
